@@ -375,6 +375,65 @@ theorem rinv_run (s : Sys) (hi : RInv s) (evs : List REv) : RInv (s.run evs) := 
   | nil => exact hi
   | cons e es ih => exact ih _ (rinv_step s hi e)
 
+/-- progress: while a dependency `d` of a started, not yet terminal module `m` has failed to start, `m` is
+still waiting for its dependencies, the step "`m` looks at `d`" is enabled, and it makes `m` Failed. -/
+theorem fail_step_enabled (s : Sys) (hi : RInv s) (m d : Mod) (hd : d ∈ s.startDeps m)
+    (hf : (s.st d).ph = .failed) (hw : (s.st d).wasRunning = false)
+    (hs : (s.st m).started = true) (hnt : (s.st m).ph.terminal = false) :
+    (∃ ok, (s.st m).ph = .waitDeps ok) ∧ ((s.step (.awaitFail m d)).st m).ph = .failed := by
+  have hnd : ∀ ok, (s.st m).ph = .waitDeps ok → d ∉ ok := by
+    intro ok hph hin
+    have := hi.oks m ok hph d hin
+    rw [hw] at this; cases this
+  have hpast : pastDeps (s.st m).ph = false := by
+    cases hp : pastDeps (s.st m).ph
+    · rfl
+    · have := hi.deps m (Or.inr (Or.inl hp)) d hd
+      rw [hw] at this; cases this
+  have hidle : (s.st m).ph ≠ .idle := by
+    intro h; have := (hi.idle m h).1; rw [hs] at this; cases this
+  cases hph : (s.st m).ph with
+  | waitDeps ok =>
+    refine ⟨⟨ok, rfl⟩, ?_⟩
+    have hguard : (s.startDeps m).contains d = true ∧ ¬ ok.contains d = true ∧ (s.st d).ph.latched = true ∧ (s.st d).ph ≠ .run := by
+      refine ⟨by simpa using hd, by simpa using hnd ok hph, by rw [hf]; rfl, by rw [hf]; intro h; cases h⟩
+    simp only [Sys.step, Sys.local, hph]
+    rw [if_pos hguard]
+    simp [Sys.set]
+  | idle => exact absurd hph hidle
+  | innerStart => rw [hph] at hpast; cases hpast
+  | startCleanup => rw [hph] at hpast; cases hpast
+  | run => rw [hph] at hpast; cases hpast
+  | stopWait => rw [hph] at hpast; cases hpast
+  | innerStop => rw [hph] at hpast; cases hpast
+  | term => rw [hph] at hnt; cases hnt
+  | failed => rw [hph] at hnt; cases hnt
+
+/-- a wrapper that failed without ever running stays so. -/
+theorem failed_to_start_stable (s : Sys) (e : REv) (d : Mod)
+    (hf : (s.st d).ph = .failed) (hw : (s.st d).wasRunning = false) :
+    ((s.step e).st d).ph = .failed ∧ ((s.step e).st d).wasRunning = false := by
+  unfold Sys.step
+  split
+  · exact ⟨hf, hw⟩
+  · rename_i m x h
+    simp only [Sys.set]
+    split
+    · rename_i hdm
+      subst hdm
+      -- every enabled event on d needs a phase other than `failed`, except the inner service's returns
+      cases e <;> simp only [Sys.local] at h <;> (repeat' split at h) <;> (try cases h) <;> simp_all
+    · exact ⟨hf, hw⟩
+
+theorem failed_to_start_stable_run (s : Sys) (evs : List REv) (d : Mod)
+    (hf : (s.st d).ph = .failed) (hw : (s.st d).wasRunning = false) :
+    ((s.run evs).st d).ph = .failed ∧ ((s.run evs).st d).wasRunning = false := by
+  induction evs generalizing s with
+  | nil => exact ⟨hf, hw⟩
+  | cons e es ih =>
+    obtain ⟨h1, h2⟩ := failed_to_start_stable s e d hf hw
+    exact ih _ h1 h2
+
 /-- the initial system: every wrapper and inner service New. -/
 def Sys.init (mods : List Mod) (startDeps stopDeps : Mod → List Mod) : Sys :=
   { mods, startDeps, stopDeps, st := fun _ => {} }
